@@ -424,7 +424,7 @@ def main():
                 if d is not None:
                     disagreements.append((comp, case, d))
                 for name, orc in P.get("oracles", {}).items():
-                    if props.ORACLE_COMPONENT.get(name, comp) != comp:
+                    if props.ORACLE_COMPONENT.get(name, name if name in props.GENERATORS else comp) != comp:
                         continue
                     for v in orc(case, impl):
                         oracle_hits.append((comp, name, case, v))
